@@ -38,6 +38,18 @@ CLAIMED = {
          "exhaustive over comparator patterns up to length 4 quick / 5 thorough on every scheme. The empty range is excluded "
          "(a theorem shows its inverse is empty again)."),
    design="§7 C09", technique="Lean 4 proof (first-cut-above characterisation of interval unions) + decide over regenerated tables + correspondence"),
+ "C08": dict(
+   level="proof",
+   text=("Lean 4 theorem simplify_spec over a model of VersionConstraint.simplify (deduplicate + the single-pass stack walk of "
+         "simplify_constraints + sorted(set(..)) with the set's iteration order an arbitrary permutation): for EVERY version-sorted "
+         "list with pairwise distinct versions (any comparator pattern, any length, any lawful scheme) the result is a sub-list of the "
+         "input, has the same redundant-range meaning denoteR for every version, is accepted by validation and is a fixed point; "
+         "exact duplicates disappear; the result is independent of the hash seed (simplify_seed_independent). The unfixed index walk "
+         "violated all clauses (finding F04, repaired by a fix: commit)."),
+   note=("Trusted: Lean kernel; standard axioms; specs denoteR/validate; correspondence exhaustive over comparator patterns up to "
+         "length 4 quick / 5 thorough (+duplicates) on every hashable scheme, with the four clauses evaluated through the Lean spec "
+         "whenever model and code differ."),
+   design="§7 C08", technique="Lean 4 proof (contextual-equivalence invariant of the stack walk) + correspondence"),
 }
 
 NOT_YET = "machinery for this property is not built yet at this commit (planned: Lean 4 proof + correspondence, see DESIGN.md §7)"
